@@ -1109,3 +1109,16 @@ def _pickle_dumps(it, ctx, a, k):
     if isinstance(x, VDict) and not x.d:
         return VStr("pickle:{}")
     raise Undecided("pickle.dumps of a non-empty object")
+
+
+@op("linear_operator.operators.LowRankRootLinearOperator")
+def _LowRankRootLO(it, ctx, a, k):
+    r = _RootLO(it, ctx, a, k)
+    r.linop_class = "LowRankRootLinearOperator"
+    return r
+
+
+@op("linear_operator.operators.LowRankRootAddedDiagLinearOperator")
+def _LowRankRootAddedDiagLO(it, ctx, a, k):
+    r = as_tensor(it.binop(ctx, "+", a[0], a[1])).copy(is_linop=True, linop_class="LowRankRootAddedDiagLinearOperator")
+    return r
